@@ -41,7 +41,8 @@ const (
 	c37NS        = "c37"
 )
 
-var c37Topics = []string{"orders", "payments", "secret", "audit_log", "ev"}
+// Kafka topic names may contain dots: schema-qualified look-alikes of plain names are topics of their own
+var c37Topics = []string{"orders", "payments", "secret", "audit_log", "ev", "pii.orders", "audit.log", "a.b.c", "public.orders"}
 
 // ---------------------------------------------------------------- reference ACL
 
@@ -350,7 +351,8 @@ func c37Pad(t *rapid.T, before string, target int, style int) string {
 
 func c37GenQuery(t *rapid.T) c37Gen {
 	topic := func(label string) string {
-		return rapid.SampledFrom([]string{"orders", "payments", "secret", "audit_log", "ev", "orders", "secret", "nosuch", "Orders", "SECRET"}).Draw(t, label)
+		return rapid.SampledFrom([]string{"orders", "payments", "secret", "audit_log", "ev", "orders", "secret", "nosuch", "Orders", "SECRET",
+			"pii.orders", "audit.log", "a.b.c", "public.orders", "pii.orders", "PII.Orders", ".orders", "orders.", "x.secret", "secret.x", "public.secret"}).Draw(t, label)
 	}
 	// where (relative to byte 512 of the trimmed text) the interesting token starts
 	target := 0
@@ -672,8 +674,8 @@ func c37Judge(up *c37Upstream, allow, deny []string, q string, o c37Outcome, st 
 }
 
 var (
-	c37AllowPool = []string{"orders", "pay*", "ev", "audit*", "*", "o*", "payments"}
-	c37DenyPool  = []string{"secret", "audit*", "pay*", "payments", "s*", "orders"}
+	c37AllowPool = []string{"orders", "pay*", "ev", "audit*", "*", "o*", "payments", "orders", "pii.*", "pii.orders", "a.*", "audit.log", "public.*"}
+	c37DenyPool  = []string{"secret", "audit*", "pay*", "payments", "s*", "orders", "pii.*", "audit.log", "a.b.c", "pii.orders", "public.secret"}
 )
 
 func TestVF_C37_Forward(t *testing.T) {
@@ -773,6 +775,17 @@ func TestVF_C37_Forward(t *testing.T) {
 		}
 		for i, q := range queries {
 			st.Class("kind:" + kinds[i])
+			if nm, _, e := c37ParsedTopics(q); e == nil {
+				for _, tp := range nm {
+					if strings.Contains(tp, ".") {
+						st.Class("dotted-topic")
+						if !outs[i].Denied {
+							st.Class("dotted-topic-forwarded")
+						}
+						break
+					}
+				}
+			}
 			trimmed := strings.TrimSpace(q)
 			if len(trimmed) > 512 {
 				st.Class("longer-than-512")
